@@ -222,6 +222,7 @@ def run_rows(pid, spec, prefixes, ctxs=CTXS_DEFAULT, regs_fn=None, prep_kw=None,
                           dict(desc, error='%s in %s:%s' % (sig[0], sig[1], sig[2]), reference_verdict=verdict), desc, pre=pre)
             continue
         ls.judge(ctx, desc, 'it-' + itpos, keyfn=keyfn)
+    ls.res['sets']['control_bit_values_seen'] = lockstep.census_sets(ls)
     ls.res['violations'] = list(ls.viol.values())
     return ls.res
 
@@ -254,6 +255,11 @@ def control_noise(ctx, rng, desc):
         # HCR.TGE = 1 only where the architecture defines it: Non-secure User mode, MMU off (Non-secure PL1 modes are
         # UNPREDICTABLE under TGE, and in Secure state the pseudocode's use of TGE for the fault syndrome is a known quirk)
         r.hcr.tge = 1 if (rng.random() < 0.3 and not r.sctlr.m and desc.get('ns') == 1 and desc.get('mode') == 'usr') else 0
+        # the hypervisor's instruction traps (WFI / WFE / SMC / BXJ): an instruction they do not name is not affected by them
+        r.hcr.twi, r.hcr.twe, r.hcr.tsc = (1 if rng.random() < 0.3 else 0 for _ in range(3))
+        r.hstr.tjdbx = 1 if rng.random() < 0.3 else 0
+    if cfg['arch_version'] >= 6 and rng.random() < 0.15:
+        r.sctlr.a = 1                              # strict alignment checking (a family's own hook may still override it)
     desc['control_noise'] = dict(sctlr='%#x' % r.sctlr.value, scr='%#x' % r.scr.value, vbar='%#x' % r.vbar.value,
                                  mvbar='%#x' % r.mvbar, hvbar='%#x' % r.hvbar, hsctlr='%#x' % r.hsctlr.value, hcr='%#x' % r.hcr.value)
 
